@@ -14,6 +14,17 @@ import numpy as np
 
 TOL = 1e-8
 
+# largest observed deviation / tolerance per comparison kind in this run
+# (reported in the evidence as the tolerance margin actually used)
+MARGINS = {}
+
+
+def note(kind, deviation, tolerance):
+    if tolerance > 0 and deviation == deviation:
+        r = float(deviation) / float(tolerance)
+        if r > MARGINS.get(kind, 0.0):
+            MARGINS[kind] = r
+
 
 def _rel(a, b):
     a = np.asarray(a)
@@ -62,9 +73,11 @@ def check_weights(w_impl_broadcast, aff, saliency, wca, slack=0.0):
     w = np.asarray(w_impl_broadcast)
     d1 = float(np.max(np.abs(w - spec_weights(aff, saliency, wca, True))))
     if d1 <= TOL + slack:
+        note('weights', d1, TOL + slack)
         return None
     d2 = float(np.max(np.abs(w - spec_weights(aff, saliency, wca, False))))
     if d2 <= TOL + slack:
+        note('weights', d2, TOL + slack)
         return None
     return f'mixture weights differ from the (saliency-weighted) mean ' \
            f'affiliation over the tied axes by {min(d1, d2):.3e}'
@@ -120,6 +133,7 @@ def check_cacg(cacg, z, gamma, qf, opts):
                 eigenvalue_floor=opts.get('eigenvalue_floor', 1e-10))
             Ci = impl_cacg_covariance(cacg, idx + (k,))
             r = _rel(Ci, Cs)
+            note('cacg_covariance', r, TOL)
             if not r <= TOL:
                 return f'cACG covariance of class {k} at {idx} differs from ' \
                        f'the eigenvalue-normalised Tyler update by {r:.3e} (relative)'
@@ -189,6 +203,7 @@ def check_watson(watson, z, gamma, max_concentration=500.0, ratio_tol=1e-6):
             if not abs(nrm - 1) <= 1e-8:
                 return f'Watson mode of class {k} at {idx} has norm {nrm!r}'
             ray = float((m.conj() @ S @ m).real)
+            note('watson_rayleigh', max(lam_max - ray, 0.0), 1e-9)
             if not ray >= lam_max - 1e-9:
                 return f'Watson mode of class {k} at {idx} is not the ' \
                        f'principal eigenvector of the weighted scatter ' \
@@ -201,7 +216,9 @@ def check_watson(watson, z, gamma, max_concentration=500.0, ratio_tol=1e-6):
             elif c <= 1e-3:
                 ok = lam_max <= _ratio_cached(1e-3, D) + ratio_tol
             else:
-                ok = abs(watson_ratio(c, D) - lam_max) <= ratio_tol
+                dev = abs(watson_ratio(c, D) - lam_max)
+                note('watson_ratio', dev, ratio_tol)
+                ok = dev <= ratio_tol
             if not ok:
                 return f'Watson concentration {c!r} of class {k} at {idx}: ' \
                        f'its eigenvalue ratio {watson_ratio(c, D)!r} does not ' \
@@ -239,6 +256,7 @@ def check_vmf(vmf, y, gamma, min_concentration=1e-10, max_concentration=500.0):
                 kap = (rbar * D - rbar ** 3) / (1 - rbar ** 2)
                 kap = min(max(kap, min_concentration), max_concentration)
             d = float(np.max(np.abs(mean[idx + (k,)] - r / nr)))
+            note('vmf_mean', d, TOL)
             if not d <= TOL:
                 return f'vMF mean of class {k} at {idx} differs from the ' \
                        f'normalised weighted resultant by {d:.3e}'
@@ -247,6 +265,7 @@ def check_vmf(vmf, y, gamma, min_concentration=1e-10, max_concentration=500.0):
                 if not (min_concentration <= c <= max_concentration):
                     return f'vMF concentration {c!r} outside its clipping range'
                 continue
+            note('vmf_concentration', abs(c - kap), TOL * max(1.0, abs(kap)))
             if not abs(c - kap) <= TOL * max(1.0, abs(kap)):
                 return f'vMF concentration {c!r} of class {k} at {idx} differs ' \
                        f'from the clipped Banerjee estimate {kap!r}'
@@ -289,6 +308,7 @@ def check_gaussian(gauss, y, gamma, covariance_type):
             if np.shape(ci) != np.shape(C):
                 return f'Gaussian covariance shape {np.shape(ci)} vs {np.shape(C)}'
             r = _rel(ci, C)
+            note('gaussian_covariance', r, TOL)
             if not r <= TOL:
                 return f'Gaussian {covariance_type} covariance of class {k} at ' \
                        f'{idx} differs from the pooled weighted scatter by {r:.3e}'
@@ -379,6 +399,7 @@ def check_bingham(bing, z, gamma, max_concentration=np.inf, resid_tol=1e-3,
                 continue
             grad = bingham_grad_log_norm(lk)
             r = float(np.max(np.abs(grad - s_eig)))
+            note('bingham_stationarity', r, resid_tol)
             if not r <= resid_tol:
                 return f'Bingham eigenvalues of class {k} at {idx} do not solve ' \
                        f'grad log c(lambda) = scatter eigenvalues (residual {r:.3e})'
